@@ -21,8 +21,7 @@ D(p, s, n) == [p |-> p, s |-> s, n |-> n]
 (* predefined operators                                                                          *)
 DeclsQuick == { D(200, "xfy", "^^"), D(100, "xf", "!!"), D(700, "xfx", "abc"), D(700, "fy", "f"),
                 D(1, "fx", "@"), D(1200, "xfx", "@"), D(0, "fy", "-") }
-DeclsThorough == DeclsQuick \cup { D(1200, "xfx", "*"), D(200, "yf", "abc"), D(1200, "fx", "abc"), D(0, "xfx", "="),
-                                   D(700, "fx", "\\+"), D(200, "xfy", "-") }
+DeclsThorough == DeclsQuick \cup { D(1200, "xfx", "*"), D(200, "yf", "abc"), D(0, "xfx", "=") }
 Decls  == IF Tier = "quick" THEN DeclsQuick ELSE DeclsThorough
 MaxLen == IF Tier = "quick" THEN 2 ELSE 3
 
@@ -33,7 +32,7 @@ AllDecls == {D(p, s, n) : p \in Prios, s \in Specifiers, n \in PoolNames}
 (* treatment in writer or reader (comma, bar, semicolon, the right-associative / non-associative  *)
 (* priority-200 operators next to prefix minus)                                                  *)
 ExtraNames == IF Tier = "quick" THEN {",", ";", "^", "**", "|"}
-              ELSE {",", ";", "^", "**", "|", "->", "-->", "is", "mod", "\\", ":", "?-"}
+              ELSE {",", ";", "^", "**", "|", "->", "-->", "is", "\\", ":"}
 InterestNames == PoolNames \cup ExtraNames
 Interest(S) == {sh \in S : sh[1] \in InterestNames}
 ShapeU == Interest(Shapes(DcgsTable) \cup {ShapeOf(OpRec(d.p, d.s, d.n)) : d \in {e \in Decls : e.p > 0}})
@@ -41,7 +40,7 @@ ShapeU == Interest(Shapes(DcgsTable) \cup {ShapeOf(OpRec(d.p, d.s, d.n)) : d \in
 L1 == IF Tier = "quick"
       THEN {[c |-> "atom", t |-> a], [c |-> "negint", t |-> I(-1)], [c |-> "opatom:-", t |-> A("-")]}
       ELSE {[c |-> "atom", t |-> a], [c |-> "int", t |-> I(1)], [c |-> "negint", t |-> I(-1)], [c |-> "opatom:-", t |-> A("-")],
-            [c |-> "var", t |-> X], [c |-> "negfloat", t |-> Flt("BFF0000000000000")]}
+            [c |-> "var", t |-> X]}
 OpAtomNames == InterestNames
 
 BaseKeys == {<<g, 0>> : g \in Range(BaseGroups)}
@@ -93,9 +92,15 @@ Out(it) == [t |-> it.t, needs |-> it.needs, o |-> it.o, in |-> it.in, pos |-> it
             nvdef |-> NVDefined(it.t), safe |-> NamingSafe(it.t)]
 OutT(t) == [t |-> t, nv |-> IF NVImage(t) = t THEN <<>> ELSE <<NVImage(t)>>, nvdef |-> NVDefined(t), safe |-> NamingSafe(t)]
 
+(* per writer: its options, which image Expect selects (probed on '$VAR'(0)) and which items Applicable excludes *)
+WInfo(w) == [opts |-> WOpts(w),
+             expect |-> IF Expect(w, NumVar(I(0))) = NumVar(I(0)) THEN "plain" ELSE "nv",
+             needs_nvdef |-> ~Applicable(w, NumVar(I(-1))),
+             needs_safe |-> ~Applicable(w, C2("f", NumVar(I(0)), X))]
+
 Emit ==
   /\ phase = "tbl" /\ (Mode = "exh" \/ Len(hist) = 0) => PrintT(ToJson([kind |-> "table", hist |-> hist, tbl |-> tbl]))
   /\ phase = "emit" => PrintT(ToJson([kind |-> "terms", grp |-> grp, items |-> {Out(it) : it \in GroupItems(grp)}]))
-  /\ phase = "writers" => PrintT(ToJson([kind |-> "writers", w |-> [w \in Writers |-> WOpts(w)]]))
+  /\ phase = "writers" => PrintT(ToJson([kind |-> "writers", w |-> [w \in Writers |-> WInfo(w)]]))
   /\ phase = "sim" => PrintT(ToJson([kind |-> "sim", hist |-> hist, tbl |-> tbl, items |-> [j \in 1..Len(terms) |-> OutT(terms[j])]]))
 =============================================================================
